@@ -63,6 +63,20 @@ func junkTokens(ver *spec.Version) []string {
 			} {
 				set[t] = true
 			}
+			// look-alike runes (code point congruent to the legal byte modulo 256 / 65536) and over-long values
+			for _, off := range []rune{0x100, 0x10000, 0xFEE0} {
+				rv := []rune(v)
+				rv[0] += off
+				set[a+":"+string(rv)] = true
+				ra := []rune(a)
+				ra[0] += off
+				set[string(ra)+":"+v] = true
+			}
+			for _, n := range []int{255, 256, 257} {
+				set[a+":"+v+strings.Repeat("\x00", n-len(v))] = true
+				set[a+":"+v+strings.Repeat(v[:1], n)] = true
+				set[a+":"+v+strings.Repeat(" ", n+1-len(v))] = true
+			}
 			// a value legal for the neighbouring metric only
 			nb := ver.Metrics[(mi+1)%n]
 			for _, nv := range nb.Values {
